@@ -405,6 +405,11 @@ func genC12(g *G) {
 			p := g.c12Target(c)
 			g.emitPt("cellpt", id, p)
 			g.emit("cidpt", fx(p.X), fx(p.Y), fx(p.Z))
+			if k == 0 { // points at the exact float thresholds between leaf columns / rows (defect D46)
+				for _, q := range g.marginPoints() {
+					g.emit("cidpt", fx(q.X), fx(q.Y), fx(q.Z))
+				}
+			}
 			// edges: random, grazing a vertex, through the cell, along a cell edge, far away
 			a, b := g.c12Target(c), g.c12Target(c)
 			switch r.Intn(6) {
